@@ -119,7 +119,11 @@ Definition mon_step (croute : bool) (lim : Z) (acts : list action) (s : mst) (e 
       | None, Some _ => [1%N]
       | _, None => [11%N]
       end in
-    if ok then upd s (m_ack s) (m_arp s) (match m_ack s with Some l => Some (t, l) | None => None end) None None cfg_bad
+    if ok then
+      (* a link-up while the interface was being configured: the lease just configured is held, so it is re-validated at once *)
+      if oe_cancel e then upd s (m_ack s) (m_arp s) (match m_ack s with Some l => Some (t, l) | None => None end) (Some t)
+                              (Some (4%N, Some t, 10%N)) cfg_bad
+      else upd s (m_ack s) (m_arp s) (match m_ack s with Some l => Some (t, l) | None => None end) None None cfg_bad
     else upd s (m_ack s) (m_arp s) None (m_link s) restart (cfg_bad ++ demand_unconf t 4%N)
   | ESleep cancel_at =>
     match cancel_at, cur_deadlines s with
